@@ -530,7 +530,8 @@ pub fn walks(prop: &str, seed: u64, count: usize, nsyms: usize, rep: &mut Report
         let enc_noeos = coding::encode_program(&prog, props);
         let out_len = enc_noeos.out.len() as u64;
         if with_marker {
-            prog.push(Sym::Eos);
+            // the marker is defined by its distance alone: every third one carries a length other than 2
+            prog.push(if i % 3 == 1 { Sym::Eosn { n: [3u32, 10, 273, 18][i % 4] } } else { Sym::Eos });
         }
         // raw decoder with the *exact* dictionary (copies wrap), one-shot with header dict,
         // and a larger declared dictionary: all must give the same bytes
@@ -774,7 +775,7 @@ pub fn replay_entry_points(path: &str, prop: &str, seed: u64, rounds: usize, rep
             };
             let mut pr = prog.clone();
             if marker {
-                pr.push(Sym::Eos);
+                pr.push(if n % 4 == 3 { Sym::Eosn { n: [3u32, 9, 100, 273][(n / 4) % 4] } } else { Sym::Eos });
             }
             let mut data = lzma_header(*props, [4096u32, 1 << 20, 0][pi % 3], if opt.header_len() == 13 { Some(field.unwrap_or(u64::MAX)) } else { None });
             data.extend_from_slice(&coding::encode_program(&pr, *props).payload);
@@ -915,7 +916,7 @@ pub fn options_matrix(prop: &str, seed: u64, nprogs: usize, rep: &mut Report) {
         for marker in [false, true] {
             let mut p2 = prog.clone();
             if marker {
-                p2.push(Sym::Eos);
+                p2.push(if pi % 3 == 2 { Sym::Eosn { n: 2 + (pi as u32 * 37) % 272 } } else { Sym::Eos });
             }
             let fields: Vec<Option<u64>> = vec![None, Some(t), Some(t + 1), Some(t.saturating_sub(1)), Some(0), Some(1 << 40), Some(1 << 63), Some(u64::MAX - 1), Some((1 << 32) + t)];
             let ns: Vec<Option<u64>> = vec![None, Some(t), Some(t + 1), Some(t.saturating_sub(1)), Some(0)];
